@@ -43,6 +43,14 @@ def applyProps (a : Account) (p : Props) : Account :=
 def lookup (root : Account) (m : Accts) (k : Bytes) : Option Account :=
   if k = root.access then some root else m k
 
+/-- Ownership oracle (end to end, `posix --chuid --chgid`): every file-system object that a request
+authenticated as account `a` creates — bucket directory, parent directories of the key, object
+file, multipart part file, completed multipart object — is owned by exactly these ids, whatever
+the gateway process's own effective uid / gid are.  `a` is what the lookup of that request answers
+(`lookup`), so an account's ids count from the acknowledgement of the create-user / update-user
+that set them. -/
+def expectedOwner (a : Account) : Int × Int := (a.uid, a.gid)
+
 /-- new map and answer of one call (`list`: the answer is judged by `ListOk`) -/
 def apply (root : Account) (m : Accts) : Op → Accts × Res
   | .create a =>
